@@ -11,6 +11,7 @@ loader on the same file).  Three observation points on the real code:
 """
 import datetime as dt
 import math
+import os
 import re
 
 import openpyxl
@@ -32,7 +33,7 @@ RULE = ('generated workbooks: 1..6 (thorough ..12) worksheets in random order, o
 ASSUMPTIONS = ['openpyxl writes what the generator planted (floats with 16 significant digits: the stored number is the expectation); its regular loader is the independent reading of stored value/type',
                'time / timedelta cells are outside the type list of the statement: recorded, not judged',
                'size of an empty worksheet: {0,0} and openpyxl\'s {1,1} both accepted']
-FLOORS = {'quick': {'evaluations': 4000, 'nontrivial': 2000, 'counters': {'grid_cells_checked': 5000, 'excel_parse_hooked': 100}},
+FLOORS = {'quick': {'evaluations': 4000, 'nontrivial': 2000, 'counters': {'grid_cells_checked': 5000, 'excel_parse_hooked': 100, 'exotic_books': 6}},
           'thorough': {'evaluations': 80000, 'nontrivial': 40000, 'counters': {'grid_cells_checked': 100000, 'excel_parse_hooked': 2000}}}
 
 TITLES = ['S1', 'Data_2', 'my sheet', 'Лист1', '2024', 'a.b', 'Main', 'T-1', 'x y z', 'Q', 'R2D2', "it's", 'A', 'B', 'AB', 'Sheet10']
@@ -416,11 +417,61 @@ def check_book(ctx, spec, titles, plant, probes, name, far=False):
         r.nt((name, 'probe', si, rr, cc))
 
 
+EXOTIC = [('data table', {'$dtf': {'ref': 'C3:C5', 'r1': 'B1', 'dt2D': False, 'dtr': False}}), ('data table 2-d', {'$dtf': {'ref': 'D3:E4', 'r1': 'B1', 'r2': 'B2', 'dt2D': True}}),
+          ('largest double', 1.7976931348623157e308), ('negative largest double', -1.7976931348623157e308), ('nearly largest double', 1.7976931348623155e308),
+          ('smallest double', 5e-324), ('time of day', {'$t': '00:00:00'}), ('duration', {'$td': 90000.0})]
+
+
+def run_exotic(ctx):
+    """values openpyxl hands over as something else than int/float/bool/text/date-time (a data table object, a number it reads back as
+    inf, a time of day, a duration): the workbook is refused with the library's exception, or the class loads and every ORDINARY cell of it
+    still has its stored value - one strange cell must not turn the class of the whole workbook into text that does not compile"""
+    from excel2pycl import E2PyclParserException
+    r, rng = ctx.r, ctx.rng
+    for what, val in EXOTIC:
+        cells = {'A1': 11, 'A2': 'txt', 'B1': 2.5, 'B2': True, 'A3': '=A1+B1', 'C9': rng.randrange(100, 999)}
+        where = rng.choice(['C3', 'F7', 'B4'])
+        cells[where] = val
+        spec = wbspec.spec(wbspec.sheet('S', cells), wbspec.sheet('T', {'A1': 5}))
+        try:
+            path = wbspec.write(spec, os.path.join(ctx.workdir, 'exotic_%s.xlsx' % what.replace(' ', '_')))
+        except (TypeError, ValueError, AttributeError) as e:      # openpyxl cannot write it: nothing to observe
+            r.count('exotic_not_writable:' + type(e).__name__)
+            continue
+        t = pipeline.translate(path)
+        r.ev()
+        r.count('exotic_books')
+        r.nt(('exotic', what))
+        if not t.ok:
+            r.count('exotic:refused' if t.kind == pipeline.LIB_EXC else 'exotic:failed')
+            if t.kind != pipeline.LIB_EXC:
+                report(r, ID, None, {'spec': spec, 'what': what}, t.brief(), 'a class or an exception of the library', monitor='exotic-cell-value')
+            continue
+        ld = pipeline.load_text(t.value)
+        if not ld.ok:
+            report(r, ID, None, {'spec': spec, 'what': what}, ld.brief(), 'class text that loads (or a refusal by the library)', monitor='exotic-cell-value')
+            continue
+        r.count('exotic:translated')
+        for a, want in (('A1', 11), ('A2', 'txt'), ('B1', 2.5), ('B2', True), ('A3', 13.5), ('C9', cells['C9'])):
+            rr, cc = wbspec.rc(a)
+            o = pipeline.query(ld.value, 0, rr, cc)
+            r.ev()
+            if not (o.ok and type(o.value) is type(want) and o.value == want):
+                report(r, ID, None, {'spec': spec, 'what': what, 'cell': a}, o.brief(), want, monitor='exotic-cell-value')
+        # the strange cell itself: whatever it evaluates to, it is a value (a member that names something undefined is not)
+        o = pipeline.query(ld.value, 0, *wbspec.rc(where))
+        r.ev()
+        if not o.ok and o.kind != pipeline.LIB_EXC:
+            report(r, ID, None, {'spec': spec, 'what': what, 'cell': where}, o.brief(), 'a value for a cell the translation accepted', monitor='exotic-cell-value')
+    r.sample({'exotic_values': [w for w, _ in EXOTIC]})
+
+
 def plan(tier, seed):
     n = 160 if tier == 'quick' else 4000
     nf = 16 if tier == 'quick' else 160
     shards = [{'kind': 'near', 'n': n // 16, 'k': i} for i in range(16)]
     shards += [{'kind': 'far', 'n': max(1, nf // 8), 'k': i} for i in range(8)]
+    shards.append({'kind': 'exotic'})
     return shards
 
 
@@ -446,6 +497,8 @@ def run_shard(shard, ctx):
                 plant[(si, rr, cc)] = ('time' if isinstance(v, dt.time) else 'replayed', v)
         far = any(rr > 60 or cc > 40 for (_, rr, cc) in plant)
         return check_book(ctx, spec, titles, plant, probes, 'replay', far=far)
+    if shard['kind'] == 'exotic':
+        return run_exotic(ctx)
     far = shard['kind'] == 'far'
     for i in range(shard['n']):
         spec, titles, plant, probes = gen_book(ctx.rng, ctx.tier, far=far)
